@@ -185,9 +185,10 @@ def wire (s : Suppr) : Suppr :=
     symbolName := s.symbolName, hash := 0, thisAndNextLine := false, type := .unique, lineBegin := noLine, lineEnd := noLine,
     column := s.column, isInline := s.isInline, isPolyspace := s.isPolyspace, checked := s.checked, matched := s.matched }
 
-/-- `PipeWriter::writeSuppr`: inline suppressions always, the others only when checked -/
-def workerReport (st : State) : List Suppr :=
-  (st.filter fun s => s.isInline || s.checked).map wire
+/-- `PipeWriter::writeSuppr`: inline suppressions always, the others only when checked.
+    `skipHash`: entries with a hash are not sent at all (proposed fix C24-process-hash-suppression.diff; legacy = false) -/
+def workerReport (skipHash : Bool) (st : State) : List Suppr :=
+  (st.filter fun s => !(skipHash && s.hash > 0) && (s.isInline || s.checked)).map wire
 
 /-- parent side of REPORT_SUPPR_INLINE / REPORT_SUPPR: add, or fold the flags into the existing entry -/
 def recv (globsOk : Bool) (st : State) (m : Suppr) : State :=
@@ -227,7 +228,7 @@ def runOps (verdict : Suppr → Msg → Res) (st : State) (ops : List Op) : Stat
 
 /-- what `CppCheck::check(file)` does to the list while it analyses one file (lib/cppcheck.cpp): the dummy call with an
     empty id, the inline suppressions of the file (only with `--inline-suppr`), the token lines of every analysed
-    configuration (`markUnmatchedInlineSuppressionsAsChecked`, also only with `--inline-suppr`), one call per finding -/
+    configuration (`markUnmatchedInlineSuppressionsAsChecked`), one call per finding -/
 structure FileRun where
   path : Str
   inlineSupprs : List Suppr
@@ -237,7 +238,20 @@ deriving Repr
 
 def dummyMsg : Msg := ⟨[], 0⟩
 
-def fileOps (inlineSuppr : Bool) (f : FileRun) : List Op :=
-  [.sup true dummyMsg] ++ (if inlineSuppr then f.inlineSupprs.map .add ++ [.mark f.tokenLines] else []) ++ f.findings.map (.sup true)
+/-- `markAlways`: the token lines are fed to the list whether or not `--inline-suppr` is given (proposed fix
+    C24-line-suppression-checked.diff; legacy = false) -/
+def fileOps (markAlways : Bool) (inlineSuppr : Bool) (f : FileRun) : List Op :=
+  [.sup true dummyMsg] ++ (if inlineSuppr then f.inlineSupprs.map .add else []) ++
+  (if markAlways || inlineSuppr then [.mark f.tokenLines] else []) ++ f.findings.map (.sup true)
+
+/-- `CppCheckLogger::reportErr` in a worker of the thread / process executor (`mUseGlobalSuppressions == false`), as far as
+    the list is concerned: the local suppressions are asked first; only a finding none of them hides reaches the call
+    over all suppressions (`!nofail.isSuppressed(..) && !nomsg.isSuppressed(errorMessage)`).
+    `showGlobal`: a locally hidden finding is shown to all suppressions as well (proposed fix
+    C24-global-suppressions-see-locally-suppressed.diff; legacy = false) -/
+def workerReportErr (showGlobal : Bool) (v : Suppr → Msg → Res) (st : State) (m : Msg) : State :=
+  let r := isSuppressedWith false m.id st (st.map (v · m))
+  if r.2 then (if showGlobal then (isSuppressedWith true m.id r.1 (r.1.map (v · m))).1 else r.1)
+  else (isSuppressedWith true m.id r.1 (r.1.map (v · m))).1
 
 end Cppcheck.Unmatched
